@@ -35,10 +35,10 @@ func init() {
 			"arrow-go builders/IPC and fxamacker/cbor preserve the values they are given", "pdata getters are pure")
 		for _, r := range []*core.Rule{
 			{ID: "RT.5", Title: "wrapper discipline: one append, null only for zero, request whenever non-null", Mod: core.ModRoot, Floor: 40, Run: rt_5},
-			{ID: "RT.8", Title: "enum switches cover every non-empty constant", Mod: core.ModRoot, Floor: 15, Run: rt_8},
+			{ID: "RT.8", Title: "enum switches cover every non-empty constant", Mod: core.ModRoot, Floor: 15, FloorBy: map[string]int{"C01": 15, "C02": 15, "C03": 25}, Run: rt_8},
 			{ID: "RT.9", Title: "identity strings: type tag and injective framing", Mod: core.ModRoot, Floor: 4, Run: rt_9},
-			{ID: "RT.12", Title: "decoder regrouping: scope tracking reset on resource change, accumulated ids", Mod: core.ModRoot, Floor: 3, Run: rt_12},
-			{ID: "RT.14", Title: "sorter state is reset before the first Encode of every build", Mod: core.ModRoot, Floor: 9, Run: rt_14},
+			{ID: "RT.12", Title: "decoder regrouping: scope tracking reset on resource change, accumulated ids", Mod: core.ModRoot, Floor: 1, Run: rt_12},
+			{ID: "RT.14", Title: "sorter state is reset before the first Encode of every build", Mod: core.ModRoot, Floor: 9, FloorBy: map[string]int{"C01": 4, "C02": 2, "C03": 6}, Run: rt_14},
 		} {
 			register(prop, r)
 		}
